@@ -74,8 +74,11 @@ def run(ctx):
         raise
     recs = vlib.read_ndjson(tp)
     acc = [x for x in recs if x["ev"] == "accept"]
-    ctx.log("driver: %d schedules, %d records, %d accepted measurements (%d interleaved)" %
-            (len(scheds), len(recs), len(acc), sum(1 for x in acc if x["il"])))
+    unj = sum(1 for x in recs if x["ev"] == "recv" and x["got"] == "ok")
+    ctx.log("driver: %d schedules, %d records, %d accepted measurements judged (%d interleaved; %d through the client's "
+            "filter, %d from wire fields and return values), %d accepted without a visible offset; log records seen for %d" %
+            (len(scheds), len(recs), len(acc), sum(1 for x in acc if x["il"]), sum(1 for x in acc if x["src"] == "filter"),
+             sum(1 for x in acc if x["src"] == "wire"), unj, sum(1 for x in recs if x.get("lg"))))
     # vacuity is judged on the specification side (what the schedules ask for), so
     # that a property-preserving change of the client is not reported as a failure
     want_ok = sum(1 for s in scheds for m in s if m.get("a") == "crecv" and m.get("res") == "ok")
@@ -95,11 +98,16 @@ def run(ctx):
     else:
         ok, l, inv, tout = ctx.validate("NtpExchangeTrace", "NtpExchangeTrace_strict.cfg", tp)
         if not ok:
-            ctx.drift.append("client reaction differs from NtpExchange.tla: %s" % (recs[l - 1] if l else "?"))
+            what = {"SOutcome": "client reaction differs from NtpExchange.tla",
+                    "SPrevFlag": "the client's interleaved state (hook) and the wire classify the accepted response differently",
+                    "SLog": "the client's log records tell another reaction / offset / delay / mode than the observation"}.get(inv, inv)
+            ctx.drift.append("%s: %s" % (what, recs[l - 1] if l else "?"))
     reuse_scenario(ctx, recs)
     ctx.cov.update(traces_validated_against_impl=nval, evaluations=len(recs),
                    distinct_nontrivial=len({(x["il"], x["t0ex"], x["t1h"], x["t2r"], x["ex"]) for x in acc}),
                    accepted=len(acc), accepted_interleaved=sum(1 for x in acc if x["il"]),
+                   accepted_by_source={k: sum(1 for x in acc if x["src"] == k) for k in ("filter", "wire")},
+                   accepted_not_judged=unj, records_with_log_crosscheck=sum(1 for x in recs if x.get("lg")),
                    outcomes={k: sum(1 for x in recs if x.get("got") == k) for k in ("ok", "skip", "error", "timeout", "ignored")},
                    rule="TLC -simulate walks of NtpExchangeGen (6 attempts, loss/duplication/reordering of requests and "
                         "responses, lost server tx timestamps, server clock steps of +-1 s, idle > 3 s) executed by the "
@@ -107,4 +115,10 @@ def run(ctx):
                    samples=acc[:3] + [x for x in acc if x["il"]][:2])
     ctx.assumptions += ["IP and SCION clients alternate per schedule (SCION: same-AS empty path, no SPAO - see C13)",
                         "a datagram reaches only the socket it was addressed to (no ephemeral-port reuse)",
-                        "loopback kernel software timestamps; causal identification windows between neighbouring harness network events"]
+                        "loopback kernel software timestamps; causal identification windows between neighbouring harness network events",
+                        "what the client did with a datagram is decided without its log: return of the measurement call, the "
+                        "client's next request on the wire, state of the client's socket (/proc/net/udp: gone / read empty) and of "
+                        "the call's goroutines (all parked again = the datagram was skipped); three quarters of the behaviours run "
+                        "with a recording pass-through measurements.Filter (every accepted exchange is judged on the four "
+                        "timestamps the client hands over), the rest without filter (only measurements the call returns are "
+                        "judged; the round-trip delay is that of the four identified timestamps)"]
